@@ -75,12 +75,15 @@ type runRes struct {
 
 // allocation is measured process wide: a large reading is confirmed by repeating the call (the decoder's own
 // allocation is the same every time, that of the runtime or of other goroutines is not)
-const allocSuspicious = 512 << 10
+const (
+	allocSuspicious = 512 << 10
+	allocCertain    = 64 << 20 // nothing but the call under test allocates that much
+)
 
 // decodeOnce gives data (len = bytes received, cap = memory behind) to the real decoder.
 func decodeOnce(codec string, data []byte, tail string) runRes {
 	r := decodeOnce1(codec, append(make([]byte, 0, cap(data)), data[:cap(data)]...)[:len(data)], tail)
-	for i := 0; i < 3 && r.Alloc > allocSuspicious && r.Out != "loop"; i++ {
+	for i := 0; i < 3 && r.Alloc > allocSuspicious && r.Alloc < allocCertain && r.Out != "loop"; i++ {
 		r2 := decodeOnce1(codec, append(make([]byte, 0, cap(data)), data[:cap(data)]...)[:len(data)], tail)
 		if r2.Alloc < r.Alloc {
 			r.Alloc = r2.Alloc
